@@ -13,10 +13,10 @@ checks = {
    note="Trusted: output parser over sentinel templates; trailing empty rows are not compared (no glyphs)."),
  "C15": dict(level="fault_enumeration", design="§4 C15",
    technique=TECH + "storage-corruption fault on bytecode records: every truncation, every byte replaced by 8 values, appended garbage; two readers (engine/VM, disassembler) against an independent decoder",
-   text="For sampled valid programs using all twelve opcodes the stored record is damaged in every way of the catalogue and handed to the VM (through the resource seam, two requests) and to the disassembler; an independent decoder classifies each damaged record; no reader may panic in decoding, the disassembler must fail iff the record is malformed, the VM must fail on a truncated instruction, never report success past a malformed one (also not by showing the decoding error on a catch page after an earlier external failure) and not go on from behind it on the next request. Exhaustive per program over the catalogue; programs sampled. Claimed only as a storage fault (not arbitrary byte strings, not coverage-guided fuzzing).",
+   text="For sampled valid programs using all twelve opcodes the stored record is damaged in every way of the catalogue and handed to the VM (through the resource seam, two requests) and to the disassembler; an independent decoder classifies each damaged record; no reader may panic in decoding, the disassembler must fail iff the record is malformed, the VM must fail on a truncated instruction, never report success past a malformed one (also not by showing the decoding error on a catch page after an earlier external failure) and not go on from behind it on the next request. Every second run repeats a set of damages behind 300 to 70000 complete valid instructions. Exhaustive per program over the catalogue; programs sampled. Claimed only as a storage fault (not arbitrary byte strings, not coverage-guided fuzzing).",
    note="Trusted: refcodec decoder written from the documentation; panics outside the decoding functions (e.g. a decoded flag index out of range) are execution semantics and only counted."),
  "C19": dict(level="exploration", design="§4 C19",
-   technique=TECH + "2..16 session goroutines under a seeded baton scheduler (one runs at a time, next task drawn from the tape at every seam event), hand-off hidden from the race detector; solo-vs-concurrent twin, canary in shared tables, -race child processes",
+   technique=TECH + "2..16 session goroutines under a seeded baton scheduler (one runs at a time, next task drawn from the tape at every seam event and, for sessions on the filesystem store in one shared directory, before every file-system call), hand-off hidden from the race detector; solo-vs-concurrent twin, canary in shared tables, -race child processes",
    text="Seeded search over schedules: sessions sharing only immutable application tables are served first alone, then concurrently under a scheduler that decides every interleaving from the tape; transcripts must be equal, the shared tables including a canary in the spare capacity of every bytecode slice must be untouched, and a third (quick) / all (thorough) of the worlds are re-run in a -race build in which the scheduler's own hand-offs are invisible, so that any conflicting access between two sessions is reported and replayable from the tape. Sampling over schedules.",
    note="Trusted: baton scheduler (sched), runtime.RaceDisable around the hand-off, ThreadSanitizer's bounded history; per-session harness state so that only library state is shared."),
  "C03": dict(level="exploration", design="§4 C03",
@@ -33,7 +33,7 @@ checks = {
    note="Trusted: refvm; output parser over sentinel templates. Compared only while the position agrees with the model (skipped_upstream otherwise)."),
  "C06": dict(level="exploration", design="§4 C06",
    technique=TECH + "adversarial flag lists injected through external results (reserved indices, TERMINATE), restarts; refinement against refvm plus a stripped-reserved-flags differential twin",
-   text="Seeded search over CATCH/CROAK programs whose external functions request arbitrary flag changes; (A) moves and client flags must equal the model's, (B) a twin with indices 0..5 stripped from every result must behave identically down to the stored flag bytes, (C) once TERMINATE is set every request must report stop, output nothing, fetch no code, call nothing and leave the session unchanged. Sampling.",
+   text="Seeded search over CATCH/CROAK programs whose external functions request arbitrary flag changes; (A) moves and client flags must equal the model's, (B) a twin with indices 0..5 stripped from every result must behave identically down to the stored flag bytes, (C) once TERMINATE is set every request must report stop, output nothing, fetch no code, call nothing and leave the session unchanged. Flag counts up to 66000 (indices that take three bytes in the bytecode); with many flags CATCH/CROAK and external code draw from a small pool of indices with boundaries favoured, so that they meet. Sampling.",
    note="Trusted: refvm; twin comparison cannot mis-model the code. Built-in bookkeeping flags are compared only between twins."),
  "C18": dict(level="exploration", design="§4 C18",
    technique=TECH + "language switches injected through external results (valid, invalid, repeated) with partial translation tables and restarts, over three resource stacks (harness resource, library DbResource over a recording store, library gettext resource over generated .po files); refinement against refvm's language per lookup",
@@ -42,22 +42,22 @@ checks = {
  "C20": dict(level="exploration", design="§4 C20",
    technique=TECH + "histories continuing past graceful and abnormal session ends with a restart before every request on all backends, refinement against refvm's end/blocked behaviour",
    text="Seeded search over programs with both kinds of end node and TERMINATE-setting external code; after a graceful end the stored session must have an empty symbol cache and the same client flags and the next request must run the entry node afresh; after an abnormal end every later request must report stop, output nothing and run nothing until the harness clears the flag. Sampling.",
-   note="Trusted: refvm; nothing is asserted after the harness cleared TERMINATE. Template-lookup and client-write faults are injected on arbitrary requests including the one that ends the session: the page is then not compared, the restart/blocking behaviour is."),
+   note="Trusted: refvm; nothing is asserted after the harness cleared TERMINATE.  One run in 4 keeps the session's persister between requests; after client code has cleared TERMINATE in the stored session (own handle and persister) the next request must be served again. Template-lookup and client-write faults are injected on arbitrary requests including the one that ends the session: the page is then not compared, the restart/blocking behaviour is."),
  "C09": dict(level="exploration", design="§4 C09",
    technique=TECH + "seeded cache operation histories with snapshot/restore (restart) injected between operations, refinement against a reference cache, failure-atomicity check",
    text="Seeded operation histories over the cache API (values across the 16-bit boundary, limits, capacities) checked operation by operation against a small reference cache: limit and capacity enforcement, exact byte accounting, one scope per symbol, release on Pop/Reset, and unchanged exported state after every rejected operation; a sub-batch serialises and restores the cache between operations. The cache is sequential: the family contributes histories, restart as a fault and the model, not schedules. Sampling.",
    note="Trusted: the reference cache (maps with limits). Acceptance of an operation the model accepts is not demanded (counted as probe)."),
  "C10": dict(level="exploration", design="§4 C10",
    technique=TECH + "one operation history in lock-step on memory, filesystem (simulated disk, text and binary keys) and Postgres (fake server) with handle reopen, refinement against a reference map",
-   text="Seeded histories of Put/Get/SetPrefix/SetSession/SetLanguage/SetLock/seal/Dump/reopen applied in lock-step to every backend through two handles with independent sticky context and to a reference map; every Get, every refused locked write, every not-found error and every filesystem listing must agree with the map and hence with each other. The caller reuses its key/value buffers, overwrites what Get handed out and calls Close on handles it keeps using; the simulated file system enforces NAME_MAX. Sampling.",
+   text="Seeded histories of Put/Get/SetPrefix/SetSession/SetLanguage/SetLock/seal/Dump/reopen applied in lock-step to every backend through two handles with independent sticky context and to a reference map; every Get, every refused locked write, every not-found error and every filesystem listing must agree with the map and hence with each other. The caller reuses its key/value buffers, overwrites what Get handed out and calls Close on handles it keeps using; the simulated file system enforces NAME_MAX. Values of 64 KiB to 300 KB now and then; a Put while the disk fills up (ENOSPC after a drawn number of bytes, file-system media) must fail and leave the latest successful write readable; listings of language-aware types must contain every key that has a default-language entry. Sampling.",
    note="Trusted: reference map keyed by (type, session if sessioned, key, language if translated); pgfake stands in for Postgres; well-formed keys and dot-free session ids only (adversarial ones are C11)."),
  "C11": dict(level="exploration", design="§4 C11",
    technique=TECH + "adversarial key/session histories over all backends with reopen, unique tagged values, plus an injectivity sweep over a small adversarial alphabet",
-   text="Every value written is tagged with its (type, session, key); a read or a per-session listing that returns a value tagged with a different triple is a violation, as is any path addressed outside the store directory on the simulated disk. A third kind of run goes through the engine: 2-3 sessions with related ids served alternately over ONE shared store handle (optionally one shared flushing persister, a cache capacity) must see the outputs and leave the stored records they do when served alone. The sweep is exhaustive over the stated alphabet and length; histories are sampled. Three encoding collisions that cannot be repaired without breaking stored data are listed as known findings (reported as KNOWN-FINDING, not suppressing other shapes).",
+   text="Every value written is tagged with its (type, session, key); a read or a per-session listing that returns a value tagged with a different triple is a violation, as is any path addressed outside the store directory on the simulated disk. A third kind of run goes through the engine: 2-3 sessions with related ids served alternately over ONE shared store handle (optionally one shared flushing persister, a cache capacity) must see the outputs and leave the stored records they do when served alone. Persister policies of the gateway: a new one per request, one shared flushing one, or one kept per session that selects its session through Persister.WithSession. The sweep is exhaustive over the stated alphabet and length; histories are sampled. Three encoding collisions that cannot be repaired without breaking stored data are listed as known findings (reported as KNOWN-FINDING, not suppressing other shapes).",
    note="Trusted: collision-shape classifier used only to match known findings; triples a backend rejects are skipped on that backend."),
  "C12": dict(level="fault_enumeration", design="§4 C12",
    technique=TECH + "crash (process death) injected at every file-system micro-step and write offset of every save on a simulated disk; old-or-new record oracle plus continuation twins",
-   text="For every request of sampled histories the real db/fs (compiled against the simulated os) is crashed at every micro-step and byte offset of every save; the record must be byte-equal to a complete record from before or after the interrupted save, other records untouched, and a fresh engine on the crashed disk must continue like a twin started from the old or the new record. Exhaustive per save within the stated offset rule; histories sampled.",
+   text="For every request of sampled histories the real db/fs (compiled against the simulated os) is crashed at every micro-step and byte offset of every save; the record must be byte-equal to a complete record from before or after the interrupted save, other records untouched, and a fresh engine on the crashed disk must continue like a twin started from the old or the new record. One run in 8 uses an application whose session record exceeds 64 KiB (crash offsets then around every 4 KiB boundary and 64 KiB); the complete record of every request is also continued by a twin that is handed the same bytes by the memory backend, so that a record both fs sides fail to read alike does not pass. Exhaustive per save within the stated offset rule; histories sampled.",
    note="Trusted: simfs (in-memory model of open/create/truncate/write/close/rename/remove with process-death semantics, no lost un-synced data); the AST import rewrite of db/fs."),
  "C13": dict(level="fault_enumeration", design="§4 C13",
    technique=TECH + "every single and (thorough: every, quick: sampled) double failing driver call on an in-process transactional fake of pgx, transaction log + acknowledged-write model",
@@ -66,18 +66,18 @@ checks = {
  "C01": dict(level="exploration", design="§4 C01",
    technique=TECH + "seeded histories with restarts, failing external calls and client garbage; size invariant on every Flush plus unsized differential twin",
    text="Seeded search over generated applications, contents, page indices and input histories with the output size drawn around the unlimited page lengths; invariant len(output) <= OutputSize on every page handed to the client, and comparison with an unsized twin at the same position to rule out silent truncation. Sampling, not proof.",
-   note="Trusted: output parser over sentinel-delimited generated templates; scripted external functions. Also compared: the final output of a session with the unsized twin's (a page dropped without error is a violation). Text is generated with multi-byte characters; one run in 12 has values that fill a 65535-byte limit (pages just over 64 KiB). No known finding left (two were repaired in /repo, see known_findings.json 'fixed')."),
+   note="Trusted: output parser over sentinel-delimited generated templates; scripted external functions. Also compared: the final output of a session with the unsized twin's (a page dropped without error is a violation). Text is generated with multi-byte characters; one run in 12 has values that fill a 65535-byte limit (pages just over 64 KiB).  One run in 4 of the engine-per-request kind has a pre-VM function that now and then turns a request away with a notice of drawn length (output like any other); MPREV before MNEXT is drawn too. No known finding left (two were repaired in /repo, see known_findings.json 'fixed')."),
  "C08": dict(level="exploration", design="§4 C08",
    technique=TECH + "junk-heavy client histories with restarts and failing external calls over generated and example applications; recover() + consistency invariants + save/load/continue probe",
-   text="Seeded search over well-formed generated applications and the repository's examples (assembled with the real assembler), all modes and backends; the first requests of every example are swept systematically over its selector alphabet plus junk. Faults: failing external functions, failing pre-VM function (also placed at the depth limit), template-lookup and client-write errors, restarts. Any panic of library code, any violated consistency invariant after a request, a session that cannot be saved, loaded and continued, and a request that does not return (confirmed in fresh processes) is a violation. Sampling beyond the sweep depth.",
+   text="Seeded search over well-formed generated applications and the repository's examples (assembled with the real assembler), all modes and backends; the first requests of every example are swept systematically over its selector alphabet plus junk. Faults: failing external functions, failing pre-VM function (also placed at the depth limit), template-lookup and client-write errors, restarts. Any panic of library code, any violated consistency invariant after a request, a session that cannot be saved, loaded and continued, and a request that does not return (confirmed in fresh processes) is a violation. The pre-VM function also turns requests away (TERMINATE plus notice), and the capacity configured for the symbol cache must still be the session's after every request. Sampling beyond the sweep depth.",
    note="Trusted: well-formedness validator of the generator (targets exist, _catch defined, flags in range, no static self-move, HALT on every move cycle; depth is NOT bounded: one run in 50 climbs to and beyond the 128-entry limit); simfs/pgfake stubs for the fs and Postgres backends."),
  "C17": dict(level="exploration", design="§4 C17",
    technique=TECH + "client-garbage injection into histories, with/without differential twins, snapshot comparison before/after refused requests",
-   text="Seeded search over histories with refusal candidates and Flush-without-Exec probes inserted at drawn positions, long-lived and persisted operation on every backend; a refused request must produce no output, run no code, leave the live and the stored session unchanged, and the twin without the refused requests must see identical results. Sampling, not proof.",
+   text="Seeded search over histories with refusal candidates and Flush-without-Exec probes inserted at drawn positions, long-lived and persisted operation on every backend; a refused request must produce no output, run no code, leave the live and the stored session unchanged, and the twin without the refused requests must see identical results. The application has registered an input format of its own (process-wide registry of the library, filled once before any run); in half the runs the gateway reads every request into one buffer. Sampling, not proof.",
    note="Trusted: harness gateway; candidates the engine accepts are not refusals and end the comparison (counted)."),
  "C07": dict(level="exploration", design="§4 C07",
    technique=TECH + "seeded restart injection at request boundaries, differential twins (long-lived / persisted / mixed), tape shrinking",
-   text="Seeded search over generated applications, configurations and input histories; every history is served by three twins of the real engine (one long-lived engine, a fresh engine+persister+store handle per request, fresh at a drawn subset; the same template-lookup and client-write faults hit the same request of each) and, in a third of the runs, by a fourth twin through the library's engine.Loop over a simulated connection (lines in chunks, close or failure at drawn lines); all client-visible results must agree request by request. Three short scripted applications are mixed into the batch for combinations random histories reach too late. Sampling, not proof; no model of the VM is involved, so the check cannot mis-model the code. One known finding (results that are not valid UTF-8 cannot be resumed).",
+   text="Seeded search over generated applications, configurations and input histories; every history is served by three twins of the real engine (one long-lived engine, a fresh engine+persister+store handle per request, fresh at a drawn subset; the same template-lookup and client-write faults hit the same request of each) and, in a third of the runs, by a fourth twin through the library's engine.Loop over a simulated connection (lines in chunks, close or failure at drawn lines); all client-visible results must agree request by request. One run in 8 is a pair of engine-per-request twins, one with a new persister per request and one whose persister is kept between requests, continued through failed and unsaved requests: answers and session state must agree (a load replaces everything the persister held). Three short scripted applications are mixed into the batch for combinations random histories reach too late. Sampling, not proof; no model of the VM is involved, so the check cannot mis-model the code. One known finding (results that are not valid UTF-8 cannot be resumed).",
    note="Trusted: the harness gateway (Exec/Flush/Finish order as in examples/http), scripted external functions that are deterministic in (symbol, call index, input), the independent bytecode encoder. Comparison stops at the first stop/error of a session."),
 }
 
